@@ -41,7 +41,7 @@ fn abs_addr(s: &str, run: &Run) -> (i64, i64) {
     (a, p)
 }
 
-pub fn one(out: &mut Out, cond: &str, connected: bool, dialing: bool, opts: &[i64], beh: &[i64], extend: bool, peer: i64) {
+pub fn one(out: &mut Out, cond: &str, connected: bool, dialing: bool, opts: &[i64], beh: &[i64], extend: bool, peer: i64, role_override: bool) {
     let cfg = json!({"concurrency": 8});
     let mut run: Run = Run::new(&cfg);
     if peer >= 0 {
@@ -51,7 +51,8 @@ pub fn one(out: &mut Out, cond: &str, connected: bool, dialing: bool, opts: &[i6
             run.exec(&json!({"c": "poll"}));
         }
         if dialing {
-            run.exec(&json!({"c": "dial", "peer": peer, "cond": "Always", "addrs": [8]}));
+            // the pending dial that makes the peer "being dialed" may be a plain dial or a hole-punch style dial with a role override
+            run.exec(&json!({"c": "dial", "peer": peer, "cond": "Always", "addrs": [8], "role_override": role_override}));
             run.exec(&json!({"c": "poll"}));
         }
     }
@@ -70,7 +71,7 @@ pub fn one(out: &mut Out, cond: &str, connected: bool, dialing: bool, opts: &[i6
     }).collect();
     out.ev(json!({"cond": cond, "connected": connected, "dialing": dialing, "opts": addrs, "beh": beh, "extend": extend, "peer": peer,
         "res": d["res"], "dialed": dialed, "nfail": nfail, "fail_kinds": fail_kinds,
-        "po0": snap0["po"], "po1": snap1["po"], "is_connected": snap0["is_connected"][peer.max(0) as usize], "listen": 100}));
+        "role_override": role_override, "po0": snap0["po"], "po1": snap1["po"], "is_connected": snap0["is_connected"][peer.max(0) as usize], "listen": 100}));
 }
 
 pub fn main(a: &vcommon::Args) {
@@ -86,7 +87,10 @@ pub fn main(a: &vcommon::Args) {
                 for o in &ol {
                     for b in &bl {
                         for extend in [false, true] {
-                            one(&mut out, cond, connected, dialing, o, b, extend, 1);
+                            one(&mut out, cond, connected, dialing, o, b, extend, 1, false);
+                            if dialing && o.len() <= 1 && b.len() <= 1 {
+                                one(&mut out, cond, connected, dialing, o, b, extend, 1, true);
+                            }
                         }
                     }
                 }
@@ -96,7 +100,7 @@ pub fn main(a: &vcommon::Args) {
     // dials without a peer id: always dial, no /p2p suffix
     for o in [1i64, 2, 100] {
         for cond in conds {
-            one(&mut out, cond, false, false, &[o], &[], false, -1);
+            one(&mut out, cond, false, false, &[o], &[], false, -1, false);
         }
     }
     println!("records={}", out.events);
